@@ -64,7 +64,7 @@ def _norms(case, V, st):
     mm_cases = [(None, None), (0, 2), (3, 1), (2, 6), ([0, 3], [2, 1]), ([1, 2], [7, 0]), (1, 0)]
 
     def fn(r):
-        g, c, t = setupCylindricalGrid(layout=lay, npts=list(NPTS), comm=MPI.COMM_WORLD)
+        g, c, t = setupCylindricalGrid(layout=lay, npts=list(NPTS), comm=MPI.COMM_WORLD, zMin=7.0, vMin=-6.1, rMin=0.3)
         l = g.getLayout(lay)
         sl = tuple(slice(int(a), int(b)) for a, b in zip(l.starts, l.ends))
         e = g.eta_grid
@@ -142,7 +142,7 @@ def _phi(case, V, st):
     fields = _fields(npts, cplx=True)
     r = np.linspace(0.1, 14.5, npts[0]) ** 1.0
     r[2] += 0.3                     # non-uniform radial grid
-    eta = [r, np.linspace(0, 2 * np.pi, npts[1], endpoint=False), np.linspace(0, 10, npts[2], endpoint=False)]
+    eta = [r, np.linspace(0, 2 * np.pi, npts[1], endpoint=False), 3.0 + np.linspace(0, 10, npts[2], endpoint=False)]
 
     def fn(rk):
         h = getLayoutHandler(MPI.COMM_WORLD, {'v_parallel_2d': [0, 2, 1], 'mode_solve': [1, 2, 0]}, list(grid), eta)
@@ -192,7 +192,7 @@ def _collector(case, V, st):
     def make_fn():
         def fn(r):
             comm = MPI.COMM_WORLD
-            g, c, t = setupCylindricalGrid(layout='v_parallel', npts=list(NPTS), comm=comm)
+            g, c, t = setupCylindricalGrid(layout='v_parallel', npts=list(NPTS), comm=comm, zMin=7.0, vMin=-6.1, rMin=0.3)
             l = g.getLayout('v_parallel')
             sl = tuple(slice(int(a), int(b)) for a, b in zip(l.starts, l.ends))
             np2 = l.nprocs[:2]
